@@ -1,18 +1,53 @@
 (* C03 — repeated apply/destroy runs converge to the declared set.
-   PARTIAL: what is proved here is the inventory equation at the level of the
-   actuation table (the retention table of the final inventory task is exactly
-   the formula of the property), that this set is what the final replace
-   writes, and that abandoned / successfully deleted objects leave it.  The
-   link "table = last recorded outcome per object" is C19_latest; "every
-   successfully applied object is live with our annotation", the fixpoint of
-   an identical re-apply and the clean destroy are checked on every run of the
-   correspondence (monitor mon_C03 / c03_fixpoint evaluated on the real
-   implementation's histories) but are not yet theorems. *)
+
+   PROVED over the executable pipeline model (Model/Pipeline.v), all theorems
+   `Closed under the global context`:
+
+   * the convergence monitor `mon_C03` (Corr/CorrPipeline.v), which the
+     correspondence evaluates on every run of the real implementation, holds of
+     EVERY run of the model from a well-formed start state (`C03_monitor`,
+     hypothesis `WF` only): after a run without error event
+       - the stored inventory equals the successfully applied objects plus the previously
+         tracked objects whose apply or delete failed or was skipped, whose reconcile failed or
+         timed out, which were invalid, or which pruning was told to leave, minus detached
+         objects (`C03_monitor_inventory`; `expect_of` is the formula, evaluated from the
+         events of the run only);
+       - every successfully applied object is live with the owning annotation
+         (`C03_monitor_applied`);
+       - no object whose delete succeeded is left (`C03_monitor_deleted`);
+       - a destroy that deleted the inventory object leaves no tracked object managed
+         (`C03_monitor_destroy`).
+     The known finding of C01 (inventory namespace created, its apply fails) does not
+     falsify this monitor (`C03_monitor_kf_example`); the first clause of WF (a manifest
+     names each object once) is necessary (`C03_monitor_needs_nodup`).
+   * the retention table itself (`C03_inventory_equation_partial`: an equivalence at the level
+     of the actuation table, kept under its historical name), the final write and
+     the departure of detached objects.
+   * the fixpoint: after a clean run (no error, no failed / skipped / timed-out event; not
+     destroy, not dry-run) of a plan without invalid object, from a WF cluster whose stored
+     key list is duplicate-free, applying again (client-side) from the final cluster sends no
+     create / delete / inventory-create / inventory-delete request, rewrites the inventory only
+     with the same keys, and leaves the stored inventory unchanged — whatever happens in the
+     second run (faults, wait schedule, cancellation, even an error): `C03_fixpoint_model`,
+     `C03_fixpoint_model_exit_early` (under ExitEarly validation the invalid set is empty by
+     cleanness), `C03_fixpoint_two` (second scenario sharing only the manifest ids),
+     `C03_fixpoint_requests` (the plain reading), `C03_fixpoint_monitor` (the executable
+     `c03_fixpoint` accepts the model's own two-run history) and `C03_stable_bool` (no first
+     run at all: a run from any cluster satisfying the decidable predicate `stableb`).
+
+   STILL PARTIAL (not theorems; checked on every history of the correspondence by
+   `c03_fixpoint`, and no counterexample in 24 000 model-fuzz cases): the same-scenario
+   fixpoint when the first plan has invalid objects under the SkipInvalid policy (the
+   invalid set of the second plan must be related to the first through the graph sort),
+   and when the stored key list has duplicates. *)
 From Coq Require Import List NArith ZArith.
-From CliUtils Require Import Model.ActuationTable Model.PipelineTypes Model.Pipeline Proofs.PipelineBase
-     Proofs.PipelineAuth Proofs.PipelineMisc.
+From CliUtils Require Import Model.ActuationTable Model.PipelineTypes Model.Pipeline Corr.CorrPipeline
+     Proofs.PipelineBase Proofs.PipelineAuth Proofs.PipelineMisc Proofs.PipelineMonBase
+     Proofs.PipelineOrphansRun Proofs.PipelineMonC02
+     Proofs.PipelineMonC03d Proofs.PipelineMonC03 Proofs.PipelineMonC03FixA Proofs.PipelineMonC03Fix.
 Import ListNotations.
 
+(* ---- the retention table ------------------------------------------------------------------ *)
 (* the stored inventory after a run = successfully applied objects, plus the
    previously tracked objects whose apply or delete failed or was skipped or
    whose reconcile failed or timed out, minus detached (abandoned) objects,
@@ -37,8 +72,124 @@ Theorem C03_detached_leave : forall pl prev s i,
   ~ In i (pl_invalid pl) -> In i (r_aband s) -> ~ In i (final_inventory pl prev s).
 Proof. exact final_inventory_drops. Qed.
 
-(* non-vacuity and the fixpoint on a concrete history: a clean apply followed by
-   the identical apply sends no create/delete and leaves the inventory unchanged *)
+(* ---- the convergence monitor holds of every run of the model ------------------------------- *)
+Theorem C03_monitor : forall sc c0, WF sc c0 -> mon_C03 sc c0 (run sc c0) = true.
+Proof. exact monitor_C03. Qed.
+
+(* its conjuncts, for a non-dry run without error event *)
+Theorem C03_monitor_inventory : forall sc c0,
+  WF sc c0 -> is_dry (o_dry (sc_opts sc)) = false -> has_error (out_trace (run sc c0)) = false ->
+  forall l, inv (out_final (run sc c0)) = Some l -> set_eqn l (expect_of sc c0 (run sc c0)) = true.
+Proof. exact monitor_C03_inventory. Qed.
+
+Theorem C03_monitor_applied : forall sc c0,
+  WF sc c0 -> is_dry (o_dry (sc_opts sc)) = false -> has_error (out_trace (run sc c0)) = false ->
+  forallb (fun i => memn i (managed (out_final (run sc c0)))) (ok_applied_of (events (out_trace (run sc c0)))) = true.
+Proof. exact monitor_C03_applied. Qed.
+
+Theorem C03_monitor_deleted : forall sc c0,
+  WF sc c0 -> is_dry (o_dry (sc_opts sc)) = false -> has_error (out_trace (run sc c0)) = false ->
+  forallb (gone_ok (out_final (run sc c0))) (events (out_trace (run sc c0))) = true.
+Proof. exact monitor_C03_deleted. Qed.
+
+Theorem C03_monitor_destroy : forall sc c0,
+  WF sc c0 -> is_dry (o_dry (sc_opts sc)) = false -> has_error (out_trace (run sc c0)) = false ->
+  inv (out_final (run sc c0)) = None ->
+  o_destroy (sc_opts sc) = true /\ forall i, In i (managed (out_final (run sc c0))) -> In i (exempt0 c0).
+Proof. exact monitor_C03_destroy. Qed.
+
+(* the named components are the monitor's own *)
+Theorem C03_monitor_unfold : forall sc c0 out,
+  mon_C03 sc c0 out =
+  if (has_error (out_trace out) || is_dry (o_dry (sc_opts sc)))%bool then true else
+  match inv (out_final out) with
+  | None => (o_destroy (sc_opts sc) && match managed (out_final out) with [] => true | l => subsetn l (exempt0 c0) end)%bool
+  | Some l =>
+      (set_eqn l (expect_of sc c0 out)
+       && forallb (fun i => memn i (managed (out_final out))) (ok_applied_of (events (out_trace out)))
+       && forallb (gone_ok (out_final out)) (events (out_trace out)))%bool
+  end.
+Proof. exact mon_C03_unfold. Qed.
+
+(* a manifest must name each object once: otherwise the model (like the implementation) records the
+   LAST outcome of the object only, and a successful apply followed by a failed one of the same object
+   leaves it live, owned and untracked *)
+Theorem C03_monitor_needs_nodup :
+  exists sc c0, ~ locals_nodup sc /\ has_error (out_trace (run sc c0)) = false /\
+                inv (out_final (run sc c0)) = Some [] /\ managed (out_final (run sc c0)) = [0] /\
+                mon_C03 sc c0 (run sc c0) = false.
+Proof. exact monitor_C03_needs_nodup. Qed.
+
+(* ---- the fixpoint ---------------------------------------------------------------------------- *)
+Theorem C03_fixpoint_model : forall sc c0,
+  WF sc c0 ->
+  clean_run sc (run sc c0) = true ->
+  o_ssa (sc_opts sc) = false ->
+  pl_invalid (plan_of sc c0) = [] ->
+  NoDup (prev_of c0) ->
+  fix_ok (out_final (run sc c0)) (run sc (out_final (run sc c0))) = true.
+Proof. exact (fixpoint_model monitor_C03). Qed.
+
+Theorem C03_fixpoint_model_exit_early : forall sc c0,
+  WF sc c0 ->
+  clean_run sc (run sc c0) = true ->
+  o_ssa (sc_opts sc) = false ->
+  o_valpol (sc_opts sc) = VExitEarly ->
+  NoDup (prev_of c0) ->
+  fix_ok (out_final (run sc c0)) (run sc (out_final (run sc c0))) = true.
+Proof. exact (fixpoint_model_exit_early monitor_C03). Qed.
+
+Theorem C03_fixpoint_two : forall sc1 sc2 c0,
+  WF sc1 c0 ->
+  clean_run sc1 (run sc1 c0) = true ->
+  pl_invalid (plan_of sc1 c0) = [] ->
+  NoDup (prev_of c0) ->
+  fix_opts sc2 = true ->
+  map l_id (sc_local sc2) = map l_id (sc_local sc1) ->
+  (o_prune (sc_opts sc2) = true -> o_prune (sc_opts sc1) = true) ->
+  fix_ok (out_final (run sc1 c0)) (run sc2 (out_final (run sc1 c0))) = true.
+Proof. exact (fixpoint_two monitor_C03). Qed.
+
+Theorem C03_fixpoint_requests : forall sc c0,
+  WF sc c0 -> clean_run sc (run sc c0) = true -> o_ssa (sc_opts sc) = false ->
+  pl_invalid (plan_of sc c0) = [] -> NoDup (prev_of c0) ->
+  let c1 := out_final (run sc c0) in
+  (forall r ok, In (r, ok) (reqs (out_trace (run sc c1))) ->
+     match r with RCreate _ _ | RDelete _ _ _ | RInvCreate _ | RInvDelete => False | _ => True end) /\
+  inv (out_final (run sc c1)) = inv c1.
+Proof. exact (fixpoint_no_create_delete monitor_C03). Qed.
+
+(* the executable check of the correspondence accepts the model's own two-run history *)
+Theorem C03_fixpoint_monitor : forall sc1 sc2 c0,
+  WF sc1 c0 -> pl_invalid (plan_of sc1 c0) = [] -> NoDup (prev_of c0) ->
+  c03_fixpoint c0 [(sc1, run sc1 c0); (sc2, run sc2 (out_final (run sc1 c0)))] = true.
+Proof. exact (fixpoint_monitor monitor_C03). Qed.
+
+(* no first run: a client-side apply from a cluster satisfying the decidable predicate `stableb`
+   (sorted duplicate-free stored keys, every planned apply object tracked and live, every other
+   tracked object live, no valid prune object when pruning) *)
+Theorem C03_stable_bool : forall sc c1, stableb sc c1 = true -> fix_ok c1 (run sc c1) = true.
+Proof. exact PipelineMonC03Fix.C03_stable_bool. Qed.
+
+(* in the two-scenario form the side conditions are necessary for `fix_ok` (the executable
+   `c03_fixpoint` accepts these histories: its `same` test compares pruning options and the validity
+   attributes of the manifests) *)
+Theorem C03_fixpoint_two_needs_prune_agree : exists sc1 sc2 c0,
+  WF sc1 c0 /\ fix_hyps sc1 c0 = true /\ fix_opts sc2 = true /\
+  map l_id (sc_local sc2) = map l_id (sc_local sc1) /\
+  fix_ok (out_final (run sc1 c0)) (run sc2 (out_final (run sc1 c0))) = false /\
+  c03_fixpoint c0 [(sc1, run sc1 c0); (sc2, run sc2 (out_final (run sc1 c0)))] = true.
+Proof. exact fix_two_needs_prune_agree. Qed.
+
+Theorem C03_fixpoint_two_needs_nodup : exists sc1 sc2 c0,
+  WF sc1 c0 /\ clean_run sc1 (run sc1 c0) = true /\ pl_invalid (plan_of sc1 c0) = [] /\
+  fix_second sc1 sc2 = true /\ ~ NoDup (prev_of c0) /\
+  fix_ok (out_final (run sc1 c0)) (run sc2 (out_final (run sc1 c0))) = false /\
+  fix_ok (out_final (run sc1 c0)) (run sc1 (out_final (run sc1 c0))) = true.
+Proof. exact fix_two_needs_nodup. Qed.
+
+(* ---- non-vacuity -------------------------------------------------------------------------------- *)
+(* a clean apply followed by the identical apply sends no request at all and leaves the cluster unchanged *)
 Example C03_fixpoint_example :
   let univ := [mkU KPlain None None; mkU KPlain None None] in
   let o := mkO false true PMustMatch DNone VSkipInvalid false false false false PropBackground false in
@@ -56,7 +207,6 @@ Proof. vm_compute. repeat split; reflexivity. Qed.
    tracked and live, deletes it again, and leaves cluster and inventory unchanged.  The executable
    monitor of the correspondence (mon_C03, with its clause "objects whose delete succeeded are gone,
    unless a finalizer holds them") and the fixpoint check accept the history. *)
-From CliUtils Require Import Corr.CorrPipeline.
 Example C03_finalizer_history :
   let univ := [mkU KNs None None; mkUF KPlain None None true; mkU KPlain None None] in
   let o := mkO false true PMustMatch DNone VSkipInvalid false false true false PropBackground false in
@@ -73,7 +223,64 @@ Example C03_finalizer_history :
   out_final r2 = out_final r1 /\
   mon_C03 sc c0 r1 = true /\ mon_C03 sc (out_final r1) r2 = true /\ c03_fixpoint c0 [(sc, r1); (sc, r2)] = true.
 Proof. vm_compute. repeat split; try reflexivity. tauto. Qed.
+(* create 1, delete 2, detach the deletion-prevented 0, no error: the stored inventory ends as [1] *)
+Example C03_monitor_example1 :
+  WF c02_ex_sc c02_ex_c0 /\
+  has_error (out_trace (run c02_ex_sc c02_ex_c0)) = false /\
+  inv (out_final (run c02_ex_sc c02_ex_c0)) = Some [1] /\
+  expect_of c02_ex_sc c02_ex_c0 (run c02_ex_sc c02_ex_c0) = [1] /\
+  mon_C03 c02_ex_sc c02_ex_c0 (run c02_ex_sc c02_ex_c0) = true.
+Proof. exact monitor_C03_ex1. Qed.
+
+(* retention: a rejected patch (0), a rejected delete (3), two reconcile timeouts (4 applied, 2 deleted):
+   the inventory ends as [0;1;2;3;4] although only 1 and 4 were applied successfully *)
+Example C03_monitor_example2 :
+  WF c03_ex_sc c03_ex_c0 /\
+  has_error (out_trace (run c03_ex_sc c03_ex_c0)) = false /\
+  ok_applied_of (events (out_trace (run c03_ex_sc c03_ex_c0))) = [1; 4] /\
+  bad_act_of (events (out_trace (run c03_ex_sc c03_ex_c0))) = [0; 3] /\
+  unrec_of (plan_of c03_ex_sc c03_ex_c0) (out_trace (run c03_ex_sc c03_ex_c0)) = [4; 2] /\
+  inv (out_final (run c03_ex_sc c03_ex_c0)) = Some [0; 1; 2; 3; 4] /\
+  mon_C03 c03_ex_sc c03_ex_c0 (run c03_ex_sc c03_ex_c0) = true.
+Proof. split; [exact c03_ex_WF|exact monitor_C03_ex2]. Qed.
+
+(* the C01 known finding is not a C03 violation *)
+Example C03_monitor_kf_example :
+  WF kf_witness_sc kf_witness_c0 /\
+  mon_C01 kf_witness_sc kf_witness_c0 (run kf_witness_sc kf_witness_c0) = false /\
+  has_error (out_trace (run kf_witness_sc kf_witness_c0)) = false /\
+  mon_C03 kf_witness_sc kf_witness_c0 (run kf_witness_sc kf_witness_c0) = true.
+Proof. split; [exact kf_witness_WF|exact monitor_C03_kf_witness]. Qed.
+
+(* the hypotheses of the fixpoint theorems hold together on a history whose first run patches 0,
+   creates 1 and prunes 2; the conclusion recomputed *)
+Example C03_fixpoint_nonvacuous :
+  WF (fix_ex_sc true) fix_ex_c0 /\
+  clean_run (fix_ex_sc true) (run (fix_ex_sc true) fix_ex_c0) = true /\
+  o_ssa (sc_opts (fix_ex_sc true)) = false /\
+  pl_invalid (plan_of (fix_ex_sc true) fix_ex_c0) = [] /\
+  nodupb (prev_of fix_ex_c0) = true /\
+  In (RCreate 1 false, true) (reqs (out_trace (run (fix_ex_sc true) fix_ex_c0))) /\
+  In (RDelete 2 11%N PropBackground, true) (reqs (out_trace (run (fix_ex_sc true) fix_ex_c0))) /\
+  fix_ok (out_final (run (fix_ex_sc true) fix_ex_c0))
+         (run (fix_ex_sc true) (out_final (run (fix_ex_sc true) fix_ex_c0))) = true.
+Proof. split; [apply fix_ex_WF|]. vm_compute. repeat split; auto 10. Qed.
 
 Print Assumptions C03_inventory_equation_partial.
 Print Assumptions C03_final_write.
 Print Assumptions C03_detached_leave.
+Print Assumptions C03_monitor.
+Print Assumptions C03_monitor_inventory.
+Print Assumptions C03_monitor_applied.
+Print Assumptions C03_monitor_deleted.
+Print Assumptions C03_monitor_destroy.
+Print Assumptions C03_monitor_unfold.
+Print Assumptions C03_monitor_needs_nodup.
+Print Assumptions C03_fixpoint_model.
+Print Assumptions C03_fixpoint_model_exit_early.
+Print Assumptions C03_fixpoint_two.
+Print Assumptions C03_fixpoint_requests.
+Print Assumptions C03_fixpoint_monitor.
+Print Assumptions C03_stable_bool.
+Print Assumptions C03_fixpoint_two_needs_prune_agree.
+Print Assumptions C03_fixpoint_two_needs_nodup.
